@@ -88,7 +88,11 @@ def _decide(agent, markets):
     if t < win[0] or t > win[1]:
         return []
     out = []
-    for j in range((per_agent or {}).get("max_orders", menu.get("max_orders", 1))):
+    n_items = (per_agent or {}).get("max_orders", menu.get("max_orders", 1))
+    mobt = menu.get("max_orders_by_time")
+    if mobt is not None and str(t) in mobt:
+        n_items = mobt[str(t)]
+    for j in range(n_items):
         tag = f"a{aid}k{k}j{j}"
         act = acts[g.choice(f"{tag}_act", len(acts))]
         if act == "none":
